@@ -45,13 +45,30 @@ fn client_token(c: &ObservableTlsClient, fmts: &str) -> String {
     )
 }
 
-fn ipv4_tcp(k: u8, payload: &[u8]) -> Vec<u8> {
+/// TCP flags / IP version of the packet-level cases are a function of the flow number (the model ignores both, as the
+/// code must): flows 20..29 and 40..49 carry SYN on their first data-bearing segment (TCP Fast Open: the ClientHello
+/// starts, or is entirely, in the SYN), flows 30..39 carry RST|PSH|ACK on every segment, flows 40..59 travel over IPv6.
+fn flow_flags(k: u8, first_data: bool) -> u8 {
+    match k { 20..=29 | 40..=49 if first_data => 0x02, 30..=39 => 0x04 | 0x18, _ => 0x18 }
+}
+fn flow_is_v6(k: u8) -> bool { (40..=59).contains(&k) }
+fn ipv6_tcp(k: u8, flags: u8, payload: &[u8]) -> Vec<u8> {
+    use hnv_common::pkt::*;
+    let mut src = [0u8; 16]; src[0] = 0xfd; src[15] = k.wrapping_add(1);
+    let mut dst = [0u8; 16]; dst[0] = 0xfd; dst[15] = 0xfe;
+    let mut tcp = Tcp::new(40000 + k as u16, 443, flags);
+    tcp.payload = payload.to_vec();
+    let mut p = Ip6::new(src, dst).bytes(&tcp.bytes());
+    while p.len() < 46 { p.push(0); }
+    p
+}
+fn ipv4_tcp(k: u8, flags: u8, payload: &[u8]) -> Vec<u8> {
     let total = 40 + payload.len();
     let mut p = vec![0x45, 0, (total >> 8) as u8, total as u8, 0, 1, 0x40, 0, 64, 6, 0, 0, 10, 0, 0, k.wrapping_add(1), 10, 0, 1, 1];
     let sport = 40000u16 + k as u16;
     p.extend_from_slice(&sport.to_be_bytes());
     p.extend_from_slice(&443u16.to_be_bytes());
-    p.extend_from_slice(&[0, 0, 0, 1, 0, 0, 0, 1, 0x50, 0x18, 0xff, 0xff, 0, 0, 0, 0]);
+    p.extend_from_slice(&[0, 0, 0, 1, 0, 0, 0, 1, 0x50, flags, 0xff, 0xff, 0, 0, 0, 0]);
     p.extend_from_slice(payload);
     // what follows the IP total length is link-layer padding: an Ethernet frame is at least 60 bytes (46 of payload),
     // so short segments arrive with trailing zeros that are not part of the datagram
@@ -74,13 +91,25 @@ fn run(line: &str) -> String {
             let cap: usize = t[1].parse().unwrap();
             let mut flows: TtlCache<FlowKey, TlsClientHelloReader> = TtlCache::new(cap);
             let mut out = vec![];
+            let mut seen_data: Vec<u8> = vec![];
             for e in &t[2..] {
                 let (k, h) = e.split_once(':').unwrap();
                 let payload = unhex_or_dash(h);
                 if payload.len() > 65000 { out.push("SKIP".to_string()); continue; }
-                let pkt = ipv4_tcp(k.parse().unwrap(), &payload);
-                let ip = Ipv4Packet::new(&pkt).unwrap();
-                out.push(match huginn_net_tls::process::process_ipv4_packet(&ip, &mut flows) {
+                let kn: u8 = k.parse().unwrap();
+                let first_data = !payload.is_empty() && !seen_data.contains(&kn);
+                if !payload.is_empty() && first_data { seen_data.push(kn); }
+                let flags = flow_flags(kn, first_data);
+                let res = if flow_is_v6(kn) {
+                    let pkt = ipv6_tcp(kn, flags, &payload);
+                    let ip = pnet::packet::ipv6::Ipv6Packet::new(&pkt).unwrap();
+                    huginn_net_tls::process::process_ipv6_packet(&ip, &mut flows)
+                } else {
+                    let pkt = ipv4_tcp(kn, flags, &payload);
+                    let ip = Ipv4Packet::new(&pkt).unwrap();
+                    huginn_net_tls::process::process_ipv4_packet(&ip, &mut flows)
+                };
+                out.push(match res {
                     Ok(Some(o)) => {
                         // the point formats are not part of the analyzer's output: take them from a direct parse
                         let fmts = "*".to_string();
@@ -102,11 +131,19 @@ fn run(line: &str) -> String {
             let workers: usize = t[1].parse().unwrap();
             let nconn: usize = t[2].parse().unwrap();
             let chunks: Vec<Vec<u8>> = t[4..].iter().map(|c| unhex_or_dash(c)).collect();
+            let (syn_first, v6, rst_all) = (t[3].starts_with('y'), t[3] == "y6", t[3] == "r");
             let frame = |c: usize, payload: &[u8]| -> Vec<u8> {
-                let ip = Ip4::new([10, 1, (c >> 8) as u8, c as u8], [10, 0, 1, 1]);
-                let mut tcp = Tcp::new(20000 + c as u16, 443, ACK | PSH);
+                let first = std::ptr::eq(payload.as_ptr(), chunks[0].as_ptr());
+                let flags = if syn_first && first { SYN } else if rst_all { RST | ACK | PSH } else { ACK | PSH };
+                let mut tcp = Tcp::new(20000 + c as u16, 443, flags);
                 tcp.payload = payload.to_vec();
-                let mut f = ether4(&ip, &tcp);
+                let mut f = if v6 {
+                    let mut src = [0u8; 16]; src[0] = 0xfd; src[14] = (c >> 8) as u8; src[15] = c as u8;
+                    let mut dst = [0u8; 16]; dst[0] = 0xfd; dst[15] = 0xfe;
+                    ether6(&Ip6::new(src, dst), &tcp)
+                } else {
+                    ether4(&Ip4::new([10, 1, (c >> 8) as u8, c as u8], [10, 0, 1, 1]), &tcp)
+                };
                 while f.len() < 60 { f.push(0); }      // Ethernet minimum frame size: zero padding after the IP datagram
                 f
             };
@@ -301,6 +338,24 @@ fn gen(r: &mut Rng, tier: &Tier, out: &mut Vec<String>) {
                              ch.iter().map(|c| hex_or_dash(c)).collect::<Vec<_>>().join(" ")));
         }
         if i % 5 == 0 { out.push(c_line(&ch)); }
+    }
+    // TCP Fast Open and flag controls: the first data-bearing segment carries SYN (whole hello in the SYN, or the first
+    // cut in the SYN and the rest in ordinary segments), IPv4 and IPv6; RST|PSH|ACK on every segment as a control
+    for i in 0..tier.scale(24, 300) {
+        let rec = recs[i % recs.len()].clone();
+        let ch = if i % 3 == 0 { vec![rec.clone()] } else {
+            let n = r.range(1, 3) as usize;
+            let mut cuts = random_cuts(r, rec.len() - 1, n);
+            for c in cuts.iter_mut() { if *c < 5 { *c = 5; } }
+            cuts.sort(); cuts.dedup();
+            cut_at(&rec, &cuts)
+        };
+        let k = *r.pick(&[20u8, 21, 30, 40, 41, 50]);
+        out.push(p_line(8, &ch.iter().map(|x| (k, x.clone())).collect::<Vec<_>>()));
+        if i % 4 == 0 && rec[1] == 3 && rec[2] <= 4 {
+            out.push(format!("W {} {} {} {}", r.range(1, 2), r.range(1, 12), *r.pick(&["y", "y", "y6", "r"]),
+                             ch.iter().map(|c| hex_or_dash(c)).collect::<Vec<_>>().join(" ")));
+        }
     }
     // malformed: damaged records split anywhere
     for _ in 0..tier.scale(300, 3000) {
